@@ -72,6 +72,11 @@ def topology():
                     top.add_bond(prev, a)
                 prev = a
         ch = top.add_chain()
+        # names that happen to coincide with identifiers the implementation uses internally when it compiles a selection
+        r = top.add_residue("atom", ch, resSeq=840)
+        for nm in ("re", "atom", "topology", "self"):
+            top.add_atom(nm, _el.carbon, r)
+        ch = top.add_chain()
         for k_, rn in enumerate(("WAT", "SOL", "TIP3", "H2O")):       # the other conventional names of a water residue
             r = top.add_residue(rn, ch, resSeq=850 + k_)
             o_ = top.add_atom("O", _el.oxygen, r)
@@ -109,7 +114,12 @@ def topology():
 def leaf_strategy():
     _top, _attr, pool = topology()
 
+    SPECIAL = {"re", "atom", "topology", "self", "O5'", "C5'", "H5''", "C2'", "O2*", "ACE", "NME", "WAT", "SOL", "TIP3", "H2O", "G", "DA5"}
+
     def val(k):
+        sp = [v for v in pool[k] if v in SPECIAL]
+        if sp:      # the rare spellings (quotes, stars, internal identifiers, caps, other water names) get a third of the draws
+            return st.one_of(st.sampled_from(pool[k]), st.sampled_from(pool[k]), st.sampled_from(sp))
         return st.sampled_from(pool[k])
 
     picks = st.tuples(st.integers(0, 2), st.integers(0, 1), st.integers(0, 2))   # keyword alias, operator alias, quoting style
